@@ -239,7 +239,7 @@ Proof.
     + apply dispatch_good; assumption.
   - cbn [fst outcome_good]. split; [reflexivity|].
     pose proof (byte_line_good _ HB) as GL.
-    pose proof (splitsp_good error_split_max line GL) as GF.
+    pose proof (splitsp_good error_split_max (bstrip line) (gstr_strip is_bspace line GL)) as GF.
     apply err_reply_good; [apply nth_good; exact GF|apply nth_error_good; exact GF|apply consts_parts].
 Qed.
 
